@@ -6,3 +6,9 @@ export CARGO_NET_OFFLINE=true
 cargo build --release --offline
 gcc -shared -fPIC -O2 -o /verif/.target/getrandom_shim.so /verif/harness/shim/getrandom_shim.c
 ( cd /repo && CARGO_TARGET_DIR=/verif/.target/py cargo build -p pytrustfall --offline )
+# C26: warm the scratch-workspace target dir (trustfall built for type-checking generated stubs)
+W="$(mktemp -d)"; mkdir -p "$W/src"; echo "" > "$W/src/lib.rs"
+printf '[package]\nname = "c26_warm"\nversion = "0.1.0"\nedition = "2021"\npublish = false\n\n[dependencies]\ntrustfall = { path = "/repo/trustfall" }\n\n[workspace]\n' > "$W/Cargo.toml"
+cp /repo/Cargo.lock "$W/Cargo.lock"
+( cd "$W" && CARGO_TARGET_DIR=/verif/.target/c26 cargo check --tests --offline -q ) || true
+rm -rf "$W"
